@@ -722,6 +722,8 @@ func makeGarbage(r *rng, op *plan.ClientOp, proto string) {
 func specialize(r *rng, p *plan.Plan, focus, arm string) {
 	rp := p.Router
 	switch focus {
+	case "C11":
+		genC11(r, p)
 	case "C18", "C10":
 		switch arm {
 		case "rclose":
@@ -994,4 +996,160 @@ func genCacheOps(r *rng, p *plan.Plan, focus, arm string) {
 	}
 	rp.HorizonUs = last + 8_000_000 + 12_000_000
 	p.Knobs.GCEveryUs = 0
+}
+
+
+var oddLabels = [][]byte{
+	[]byte("a"), []byte("a\x00"), []byte("b"), []byte("ab"), []byte("x\x07y"), []byte("\xff\xfe"), []byte("w-w"), []byte("7"), []byte("\x07"),
+	[]byte("a\\b"), []byte("UP"), []byte("up"), []byte("abcdefghijklmnopqrstuvwx"), []byte("abcdefghijklmnopqrstuvwxy"), []byte("abcdefghijklmnopqrstuvwx\x00"),
+	[]byte("0"), []byte("-"), []byte("_srv"), []byte("a b"), []byte("caf\xc3\xa9"),
+}
+
+// fileSafe reports whether a label can be written into a domain file entry.
+func fileSafe(l []byte) bool {
+	for i, c := range l {
+		if c == '\n' || c == '\r' || c == '#' || c == '.' || c == ':' {
+			return false
+		}
+		if (i == 0 || i == len(l)-1) && (c == ' ' || c == '\t' || c == 0x0b || c == 0x0c || c == 0x85 || c == 0xa0) {
+			return false
+		}
+	}
+	return len(l) > 0
+}
+
+// genC11 makes a configuration in which routing reveals the match result of
+// one domain set: rule 1 forwards matches to up1, rule 2 forwards the rest to up0.
+func genC11(r *rng, p *plan.Plan) {
+	rp := p.Router
+	for len(rp.Upstreams) < 2 {
+		rp.Upstreams = append(rp.Upstreams, upSpec(r, len(rp.Upstreams), "udp"))
+	}
+	rp.Upstreams = rp.Upstreams[:2]
+	rp.Rules = []plan.RuleSpec{{Domain: "set0", Forward: rp.Upstreams[1].Tag, Reverse: r.p(0.15)}, {Forward: rp.Upstreams[0].Tag}}
+	rp.Cache.MemSize = 0
+	// a pool of names over a small alphabet of labels, so that parents, children,
+	// siblings and near-misses of entries are asked
+	base := [][]byte{[]byte("com"), []byte("org"), []byte("example"), []byte("test"), []byte("www"), []byte("xexample")}
+	pool := append([][]byte{}, base...)
+	for n := r.rng(2, 6); n > 0; n-- {
+		pool = append(pool, oddLabels[r.intn(len(oddLabels))])
+	}
+	mkName := func(k int) [][]byte {
+		var ls [][]byte
+		for i := 0; i < k; i++ {
+			ls = append(ls, pool[r.intn(len(pool))])
+		}
+		return ls
+	}
+	render := func(ls [][]byte) (string, bool) {
+		var parts []string
+		for _, l := range ls {
+			if !fileSafe(l) {
+				return "", false
+			}
+			parts = append(parts, string(l))
+		}
+		return strings.Join(parts, "."), true
+	}
+	var entryNames [][][]byte
+	var files [][]string
+	nf := r.rng(1, 3)
+	for f := 0; f < nf; f++ {
+		var lines []string
+		for n := r.rng(1, 7); n > 0; n-- {
+			var ls [][]byte
+			switch {
+			case len(entryNames) > 0 && r.p(0.35): // parent, child or duplicate of an earlier entry
+				prev := entryNames[r.intn(len(entryNames))]
+				switch r.intn(3) {
+				case 0:
+					ls = append([][]byte{pool[r.intn(len(pool))]}, prev...)
+				case 1:
+					if len(prev) > 1 {
+						ls = prev[1:]
+					} else {
+						ls = prev
+					}
+				default:
+					ls = prev
+				}
+			default:
+				ls = mkName(r.rng(1, 3))
+			}
+			txt, ok := render(ls)
+			if !ok {
+				continue
+			}
+			entryNames = append(entryNames, ls)
+			if r.p(0.2) {
+				txt = strings.ToUpper(txt)
+			}
+			switch r.intn(7) {
+			case 0:
+				lines = append(lines, "full:"+txt)
+			case 1:
+				lines = append(lines, "domain:"+txt)
+			case 2:
+				lines = append(lines, txt+".")
+			case 3:
+				lines = append(lines, "  "+txt+"   # note")
+			default:
+				lines = append(lines, txt)
+			}
+		}
+		if r.p(0.25) {
+			lines = append(lines, "regexp:"+[]string{`^t[0-9]+\.www\.`, `\.7\.`, `\\007`, `^[^.]+\.a\\000\.`, `example\.com$`, `\\\\`}[r.intn(6)])
+		}
+		if r.p(0.3) {
+			lines = append(lines, "", "# comment", "   ")
+		}
+		files = append(files, lines)
+	}
+	rp.DomainSets = []plan.DomainSetSpec{{Tag: "set0", Files: files}}
+	// queries: token label + (entry | child | sibling | parent | near miss)
+	for i := range rp.Ops {
+		op := &rp.Ops[i]
+		if op.Raw != nil || len(op.Labels) == 0 {
+			continue
+		}
+		var rest [][]byte
+		if len(entryNames) > 0 && r.p(0.8) {
+			e := entryNames[r.intn(len(entryNames))]
+			switch r.intn(5) {
+			case 0:
+				rest = e
+			case 1:
+				rest = append([][]byte{pool[r.intn(len(pool))]}, e...)
+			case 2:
+				if len(e) > 1 {
+					rest = e[1:]
+				} else {
+					rest = e
+				}
+			case 3: // near miss: glue a prefix onto the first label / add a NUL
+				f := append([]byte("x"), e[0]...)
+				if r.p(0.5) {
+					f = append(append([]byte{}, e[0]...), 0)
+				}
+				rest = append([][]byte{f}, e[1:]...)
+			default:
+				rest = append(append([][]byte{}, e[:len(e)-1]...), pool[r.intn(len(pool))])
+			}
+		} else {
+			rest = mkName(r.rng(1, 3))
+		}
+		ls := [][]byte{op.Labels[0]}
+		// half of the queries carry the token as an extra leftmost label (a child of
+		// the name under test); the others put the name under test right after it
+		for _, l := range rest {
+			if len(l) > 63 {
+				l = l[:63]
+			}
+			ls = append(ls, mixCase(r, l))
+		}
+		op.Labels = ls
+		op.Bits = refdns.BitRD
+		op.NQ = 1
+	}
 }
